@@ -15,6 +15,7 @@ import (
 	"fmt"
 	"os"
 	"runtime"
+	"runtime/debug"
 	"strconv"
 	"sync"
 
@@ -126,6 +127,8 @@ func describe(r any) string {
 	switch v := r.(type) {
 	case nil:
 		return "nil"
+	case *runtime.TypeAssertionError:
+		return "runtime.Error:type assertion failed" // the message names types, which are obfuscated by design
 	case runtime.Error:
 		return "runtime.Error:" + v.Error()
 	case error:
@@ -144,6 +147,7 @@ func describe(r any) string {
 
 func main() {
 	kind, ctx := os.Args[1], os.Args[2]
+	debug.SetMaxStack(1 << 20)
 	os.Stdout.WriteString("stdout-line " + kind + "\n")
 	println("OWN: println", 12, true)
 	print("OWN: print\n")
@@ -216,7 +220,7 @@ if p0.returncode != 0:
     log("generator bug", p0.stderr.decode()); sys.exit(2)
 bins = {}
 for fl in FLAGSETS:
-    name = "tiny" + "".join(fl)
+    name = "t" + "".join(fl).replace("-", "").replace("=", "")
     p = g.garble(fl, "build", ["-o", name, "."], d)
     if p.returncode != 0:
         R.violation("build-fails", "garble %s build fails: %s" % (fl, short(p.stderr)), {"main.go": PROG})
@@ -230,15 +234,18 @@ def runcase(case):
     k, c, tb = case
     env = {"GOTRACEBACK": tb} if tb else {}
     wd = mkdir(g.root, "cwd")
-    a = exec_bin(d + "/plain", [k, c], env=env, timeout=60, cwd=wd)
+    a = exec_bin(d + "/plain", [k, c], env=env, timeout=600, cwd=wd)
     out = []
     for fl, b in bins.items():
-        t = exec_bin(b, [k, c], env=env, timeout=60, cwd=wd)
+        t = exec_bin(b, [k, c], env=env, timeout=600, cwd=wd)
         out.append((fl, t))
     return case, a, out
-execs = 0; outcomes = set(); crashing = 0
+execs = 0; outcomes = set(); crashing = 0; inconclusive = 0
 for case, a, outs in pmap(runcase, cases):
     k, c, tb = case
+    if a.returncode == -999 or any(t.returncode == -999 for _, t in outs):
+        inconclusive += 1   # internal deadline: no verdict (never an alarm)
+        continue
     if a.returncode not in (0,) and not k.startswith("exit"):
         crashing += 1
     outcomes.add((k, c, a.returncode, a.stdout))
@@ -277,5 +284,5 @@ R.finish({
             "distinct_nontrivial = distinct (kind, context, exit status, stdout) outcomes of the regular build; %d of the regular-build runs end in a crash" % (
                 len(KINDS), len(CTXS), TBS, FLAGSETS, crashing),
     "samples": [{"kind": k, "ctx": c, "GOTRACEBACK": tb} for k, c, tb in cases[:3] + cases[-2:]],
-    "kinds": len(KINDS), "contexts": len(CTXS), "gotraceback_values": len(TBS), "crashing_regular_runs": crashing,
-}, assumptions=["the regular Go runtime defines the reference exit status and stdout", "timing-dependent crash kinds (data races, concurrent map writes) are excluded"], exhaustive=True)
+    "inconclusive_timeouts": inconclusive, "kinds": len(KINDS), "contexts": len(CTXS), "gotraceback_values": len(TBS), "crashing_regular_runs": crashing,
+}, assumptions=["the regular Go runtime defines the reference exit status and stdout", "timing-dependent crash kinds (data races, concurrent map writes) are excluded"], exhaustive=(inconclusive == 0))
